@@ -1406,7 +1406,7 @@ class FuncCanon(object):
         changed = False
         for blk in _all_blocks(self.fn):
             top = blk is self.fn.body
-            if self.prop(blk) or self.constfold(blk) or self.revdisplay(blk) or self.lencomp(blk) or self.star(blk) or self.callsel(blk) or self.tuplepush(blk) or self.sumloop(blk) or self.listcomp(blk) or self.unroll(blk) or self.listbuild(blk) or self.copyinout(blk) or self.copyin(blk) or self.copyprop(blk) or self.initsort(blk) or self.lockwith(blk) or self.flagloop(blk) or self.ifflag(blk) or self.flageq(blk) or self.thread(blk) or self.deadstore(blk) or self.kw(blk) or self.split(blk) or self.retsplit(blk) or self.unindex(blk) or self.yieldsplit(blk) or self.forelse(blk) or self.dowhile(blk) or self.withsink(blk) or self.testsplit(blk) or self.rot(blk) or self.brk(blk, top) or self.wtop(blk) or self.ifs(blk) or self.sink(blk) or self.unpack(blk) or self.fwd(blk):
+            if self.prop(blk) or self.getsetattr(blk) or self.constfold(blk) or self.revdisplay(blk) or self.lencomp(blk) or self.star(blk) or self.callsel(blk) or self.tuplepush(blk) or self.sumloop(blk) or self.listcomp(blk) or self.unroll(blk) or self.listbuild(blk) or self.copyinout(blk) or self.copyin(blk) or self.copyprop(blk) or self.copyback(blk) or self.derived(blk) or self.initsort(blk) or self.lockwith(blk) or self.flagloop(blk) or self.ifflag(blk) or self.flageq(blk) or self.thread(blk) or self.deadstore(blk) or self.kw(blk) or self.split(blk) or self.retsplit(blk) or self.unindex(blk) or self.yieldsplit(blk) or self.forelse(blk) or self.dowhile(blk) or self.withsink(blk) or self.testsplit(blk) or self.rot(blk) or self.brk(blk, top) or self.wtop(blk) or self.ifs(blk) or self.sink(blk) or self.unpack(blk) or self.fwd(blk):
                 return True
         return changed
 
@@ -1738,6 +1738,112 @@ class FuncCanon(object):
                 self.bump("INITSORT")
                 return True
             i = max(j, i + 1)
+        return False
+
+    # -- DERIVED ---------------------------------------------------------------------------------------------------
+    def derived(self, blk):
+        """A local f that is always `f = E` for one call-free expression E over other locals, recomputed right after every binding of those locals:
+        f equals E wherever it is read, so the reads are E and the assignments go (a flag kept in step with the value it describes)."""
+        if blk is not self.fn.body:
+            return False
+        for f, stores in sorted(self.stores.items()):
+            if f in self.params or f in self.captured or not stores or not self.loads.get(f) or not all(isinstance(x, ast.Name) for x in stores):
+                continue
+            sites = []          # (block, index) of every `f = E`
+            dumps = set()
+            ok = True
+            for b in _all_blocks(self.fn):
+                for k, st in enumerate(b):
+                    if isinstance(st, ast.Assign) and len(st.targets) == 1 and isinstance(st.targets[0], ast.Name) and st.targets[0].id == f:
+                        sites.append((b, k))
+                        dumps.add(_dump(st.value))
+            if len(sites) != len(stores) or len(dumps) != 1 or len(sites) < 1:
+                continue
+            E = sites[0][0][sites[0][1]].value
+            if not isinstance(E, (ast.Compare, ast.BoolOp, ast.UnaryOp)) or _has_call(E) or any(isinstance(n, (ast.Subscript, ast.Lambda, ast.IfExp, ast.Starred)) for n in ast.walk(E)):
+                continue
+            ops = set()
+            for n in ast.walk(E):
+                if isinstance(n, ast.Name):
+                    if n.id == f or n.id in self.captured:
+                        ok = False
+                    ops.add(n.id)
+                elif isinstance(n, ast.Attribute) and _dump(n) not in NONNULL_CONSTS:
+                    ok = False
+            ops -= set(x for x in ops if x in self.modconsts or (x not in self.params and not self.stores.get(x)))
+            if not ok or not ops:
+                continue
+            site_set = set((id(b), k) for b, k in sites)
+            # every binding of an operand is a simple statement directly followed by `f = E`
+            for b in _all_blocks(self.fn):
+                for k, st in enumerate(b):
+                    binds = [n for n in (ast.walk(st) if not isinstance(st, (ast.If, ast.While, ast.For, ast.AsyncFor, ast.With, ast.AsyncWith, ast.Try)) else self._own_exprs(st))
+                             if isinstance(n, ast.Name) and n.id in ops and isinstance(n.ctx, (ast.Store, ast.Del))]
+                    if isinstance(st, (ast.For, ast.AsyncFor)):
+                        binds += [n for n in ast.walk(st.target) if isinstance(n, ast.Name) and n.id in ops]
+                    if isinstance(st, (ast.With, ast.AsyncWith)):
+                        binds += [n for it in st.items if it.optional_vars is not None for n in ast.walk(it.optional_vars) if isinstance(n, ast.Name) and n.id in ops]
+                    if not binds:
+                        continue
+                    if not isinstance(st, ast.Assign) or (id(b), k + 1) not in site_set:
+                        ok = False
+            if not ok:
+                continue
+            # the first `f = E` comes before every read of f is the original program's business (else it raised); parameters among the operands are
+            # covered by the same argument
+            for n in list(self.loads.get(f, [])):
+                _replace_node(self.fn, n, ast.copy_location(copy.deepcopy(E), n))
+            for b, k in sorted(sites, key=lambda x: -x[1]):
+                if isinstance(b[k], ast.Assign) and isinstance(b[k].targets[0], ast.Name) and b[k].targets[0].id == f:
+                    if len(b) == 1:
+                        b[k] = ast.copy_location(ast.Pass(), b[k])
+                    else:
+                        del b[k]
+            self.bump("DERIVED")
+            return True
+        return False
+
+    # -- COPYBACK --------------------------------------------------------------------------------------------------
+    def copyback(self, blk):
+        """`a, t, c = f()` ; .. ; `v = t`  (t a temporary bound there only; v untouched in between; every other read of t comes later in this block,
+        before v is bound again)   ->   `a, v, c = f()` and the reads of t read v."""
+        for i, st in enumerate(blk):
+            if not (isinstance(st, ast.Assign) and len(st.targets) == 1):
+                continue
+            tg = st.targets[0]
+            names = [tg] if isinstance(tg, ast.Name) else [x for x in tg.elts if isinstance(x, ast.Name)] if isinstance(tg, (ast.Tuple, ast.List)) and all(isinstance(x, ast.Name) for x in tg.elts) else []
+            for tn in names:
+                t = tn.id
+                if t not in self.fresh or t in self.captured or len(self.stores.get(t, ())) != 1 or self.stores[t][0] is not tn:
+                    continue
+                for j in range(i + 1, len(blk)):
+                    c = blk[j]
+                    if isinstance(c, ast.Assign) and len(c.targets) == 1 and isinstance(c.targets[0], ast.Name) and isinstance(c.value, ast.Name) and c.value.id == t:
+                        v = c.targets[0].id
+                        if v == t or v in self.captured or any(x.id == v for x in names):
+                            break
+                        if any(isinstance(n, ast.Name) and n.id == v for s_ in blk[i + 1:j] for n in ast.walk(s_)):
+                            break
+                        # where the other reads of t may sit: after the copy, before v is bound again
+                        end = len(blk)
+                        for k in range(j + 1, len(blk)):
+                            if any(isinstance(n, ast.Name) and n.id == v and isinstance(n.ctx, (ast.Store, ast.Del)) for n in ast.walk(blk[k])):
+                                end = k
+                                break
+                        ok_ids = set(id(n) for s_ in blk[j + 1:end] for n in ast.walk(s_))
+                        if end < len(blk) and isinstance(blk[end], ast.Assign):
+                            ok_ids |= set(id(n) for n in ast.walk(blk[end].value))        # the value side of the re-binding statement still sees the copy
+                        others = [n for n in self.loads.get(t, []) if n is not c.value]
+                        if any(id(n) not in ok_ids for n in others):
+                            break
+                        tn.id = v
+                        for n in others:
+                            n.id = v
+                        del blk[j]
+                        self.bump("COPYBACK")
+                        return True
+                    if any(isinstance(n, ast.Name) and n.id == t and isinstance(n.ctx, ast.Load) for n in ast.walk(c)) and not (isinstance(c, ast.Assign) and isinstance(c.value, ast.Name)):
+                        break
         return False
 
     # -- COPYPROP --------------------------------------------------------------------------------------------------
@@ -2678,6 +2784,38 @@ class FuncCanon(object):
                             return True
         return False
 
+    # -- GETATTR ---------------------------------------------------------------------------------------------------
+    def getsetattr(self, blk):
+        """`getattr(x, 'name')` -> `x.name`; the statement `setattr(x, 'name', v)` -> `x.name = v` (a literal identifier; the builtins are not shadowed)"""
+        if self.stores.get("getattr") or self.stores.get("setattr") or "getattr" in self.params or "setattr" in self.params:
+            return False
+        import keyword
+        for i, st in enumerate(blk):
+            if isinstance(st, ast.Expr) and isinstance(st.value, ast.Call) and isinstance(st.value.func, ast.Name) and st.value.func.id == "setattr" and len(st.value.args) == 3 and not st.value.keywords \
+                    and isinstance(st.value.args[1], ast.Constant) and isinstance(st.value.args[1].value, str) and st.value.args[1].value.isidentifier() and not keyword.iskeyword(st.value.args[1].value) \
+                    and not any(isinstance(a, ast.Starred) for a in st.value.args) and _is_chain(st.value.args[0]):
+                tgt = ast.Attribute(value=st.value.args[0], attr=st.value.args[1].value, ctx=ast.Store())
+                new = ast.copy_location(ast.Assign(targets=[tgt], value=st.value.args[2]), st)
+                ast.fix_missing_locations(new)
+                blk[i] = new
+                self.bump("GETATTR")
+                return True
+            for n in self._own_exprs(st):
+                for fld, val in ast.iter_fields(n):
+                    vals = val if isinstance(val, list) else [val]
+                    for k, c in enumerate(vals):
+                        if isinstance(c, ast.Call) and isinstance(c.func, ast.Name) and c.func.id == "getattr" and len(c.args) == 2 and not c.keywords and isinstance(c.args[1], ast.Constant) \
+                                and isinstance(c.args[1].value, str) and c.args[1].value.isidentifier() and not keyword.iskeyword(c.args[1].value) and not isinstance(c.args[0], ast.Starred):
+                            new = ast.copy_location(ast.Attribute(value=c.args[0], attr=c.args[1].value, ctx=ast.Load()), c)
+                            ast.fix_missing_locations(new)
+                            if isinstance(val, list):
+                                val[k] = new
+                            else:
+                                setattr(n, fld, new)
+                            self.bump("GETATTR")
+                            return True
+        return False
+
     # -- CONSTFOLD -------------------------------------------------------------------------------------------------
     def constfold(self, blk):
         """integer arithmetic over literals; `a if <literal> else b` -> the arm"""
@@ -2959,6 +3097,8 @@ class FuncCanon(object):
                         for x in subs.values():
                             k = x.slice.value % n
                             nm = "%s__%d" % (pn, k)
+                            if pn in self.fresh:
+                                self.fresh.add(nm)
                             elts[k] = ast.Name(id=nm, ctx=ast.Store())
                         for x in list(subs.values()):
                             _replace_node(self.fn, x, ast.copy_location(ast.Name(id="%s__%d" % (pn, x.slice.value % n), ctx=ast.Load()), x))
